@@ -82,6 +82,43 @@ fn mk_event(info: bool, par: &Par, handles: &[Option<Span>], i: u64) {
 
 /// Runs the program against a fresh `Registry + CaptureLayer` and returns the storage.
 fn execute(prog: &[Op], filter: bool) -> SharedStorage {
+    execute_with(prog, filter, false)
+}
+
+/// A value whose `Debug` impl runs guest code before it renders.
+struct Reenter<'a>(&'a dyn Fn());
+impl std::fmt::Debug for Reenter<'_> {
+    fn fmt(&self, f: &mut std::fmt::Formatter<'_>) -> std::fmt::Result {
+        (self.0)();
+        f.write_str("re-entered")
+    }
+}
+
+/// the static metadata of the call site of the outer span of `execute_with`
+fn outer_meta() -> &'static tracing::Metadata<'static> {
+    static SITE: std::sync::OnceLock<&'static crate::guest::DynSite> = std::sync::OnceLock::new();
+    SITE.get_or_init(|| {
+        crate::guest::make_site(&tracing_tunnel::CallSiteData {
+            kind: tracing_tunnel::CallSiteKind::Span,
+            name: "outer".into(),
+            target: "c17".into(),
+            level: tracing_tunnel::TracingLevel::Info,
+            module_path: None,
+            file: None,
+            line: None,
+            fields: vec!["i".into(), "attr".into()],
+        })
+    })
+    .metadata()
+}
+
+/// `reentrant`: the first INFO span the program creates with a contextual parent or none is created while
+/// the layer renders the attributes of ANOTHER span that is being created (through an explicit dispatcher
+/// handle, so that tracing-core delivers the nested call): the layer is re-entered inside `on_new_span`.
+/// The outer span (field `i` = 1_000_000 + ..) is captured after the inner one and kept to the end.
+fn execute_with(prog: &[Op], filter: bool, reentrant: bool) -> SharedStorage {
+    let mut reenter_pending = reentrant;
+    let mut extras: Vec<Span> = vec![];
     let storage = SharedStorage::default();
     let layer = CaptureLayer::new(&storage);
     let layer = if filter { layer.with_filter(LevelFilter::INFO) } else { layer };
@@ -92,6 +129,32 @@ fn execute(prog: &[Op], filter: bool) -> SharedStorage {
         let mut counter = 0u64;
         for op in prog {
             match op {
+                Op::Span { info: true, par } if reenter_pending && !matches!(par, Par::Of(_)) => {
+                    reenter_pending = false;
+                    let meta = outer_meta();
+                    let fields = meta.fields();
+                    let (fi, fa) = (fields.field("i").expect("field i"), fields.field("attr").expect("field attr"));
+                    let inner: std::cell::RefCell<Option<Span>> = std::cell::RefCell::new(None);
+                    let create_inner = || {
+                        if inner.borrow().is_none() {
+                            let span = mk_span(true, par, &handles, counter);
+                            *inner.borrow_mut() = Some(span);
+                        }
+                    };
+                    let attr = Reenter(&create_inner);
+                    let shown = tracing::field::debug(&attr);
+                    let outer_i = 1_000_000u64 + counter;
+                    let values = [
+                        (&fi, Some(&outer_i as &dyn tracing::field::Value)),
+                        (&fa, Some(&shown as &dyn tracing::field::Value)),
+                    ];
+                    let vs = fields.value_set(&values);
+                    let dispatch = tracing::dispatcher::get_default(tracing::Dispatch::clone);
+                    extras.push(Span::new_with(meta, &vs, &dispatch));
+                    let span = inner.into_inner().unwrap_or_else(|| mk_span(true, par, &handles, counter));
+                    counter += 1;
+                    handles.push(Some(span));
+                }
                 Op::Span { info, par } => {
                     let span = mk_span(*info, par, &handles, counter);
                     counter += 1;
@@ -122,6 +185,7 @@ fn execute(prog: &[Op], filter: bool) -> SharedStorage {
             handles[h].as_ref().expect("live handle").with_subscriber(|(id, d)| d.exit(id));
         }
         handles.clear();
+        extras.clear();
     });
     storage
 }
@@ -556,19 +620,22 @@ fn ccmp(c: &CmpObs) -> String {
 struct Run {
     prog: Vec<Op>,
     filter: bool,
+    /// the program's first INFO span is created by the `Debug` impl of an attribute of another span that is
+    /// being created (see `execute_with`)
+    reentrant: bool,
 }
 
 fn emit(sink: &mut Sink, idx: u64, kind: &str, runs: &[Run], seed: u64) {
     if !sink.wants(idx) {
         return;
     }
-    let shared: Vec<SharedStorage> = runs.iter().map(|r| execute(&r.prog, r.filter)).collect();
+    let shared: Vec<SharedStorage> = runs.iter().map(|r| execute_with(&r.prog, r.filter, r.reentrant)).collect();
     let guards: Vec<_> = shared.iter().map(|s| s.lock()).collect();
     let storages: Vec<&Storage> = guards.iter().map(|g| &**g).collect();
     let obs: Vec<StorageObs> = storages
         .iter()
         .zip(runs)
-        .map(|(s, r)| observe(s, Some(expected_parents(&r.prog, r.filter))))
+        .map(|(s, r)| observe(s, (!r.reentrant).then(|| expected_parents(&r.prog, r.filter))))
         .collect();
     let mut r = Rng::for_case(seed, "C17-cmp", idx);
     let cmps = compare(&storages, &mut r);
@@ -891,9 +958,9 @@ pub fn run(o: &Opts) {
     ));
     for (k, (prog, filter)) in corpus.iter().enumerate() {
         // every second corpus case is paired with a small second storage
-        let mut runs = vec![Run { prog: prog.clone(), filter: *filter }];
+        let mut runs = vec![Run { prog: prog.clone(), filter: *filter, reentrant: false }];
         if k % 2 == 0 {
-            runs.push(Run { prog: forest_prog(&[None, Some(0), Some(0)], &[true; 3]), filter: false });
+            runs.push(Run { prog: forest_prog(&[None, Some(0), Some(0)], &[true; 3]), filter: false, reentrant: false });
         }
         emit(&mut sink, idx, "corpus", &runs, o.seed);
         idx += 1;
@@ -902,7 +969,7 @@ pub fn run(o: &Opts) {
     // 2. bounded-exhaustive: all forests with up to 5 spans (parent vectors), explicit parents
     for n in 0..=5usize {
         for parents in all_parent_vectors(n) {
-            let runs = [Run { prog: forest_prog(&parents, &vec![true; n]), filter: false }];
+            let runs = [Run { prog: forest_prog(&parents, &vec![true; n]), filter: false, reentrant: false }];
             emit(&mut sink, idx, "exhaustive", &runs, o.seed);
             idx += 1;
         }
@@ -913,7 +980,7 @@ pub fn run(o: &Opts) {
         for parents in all_parent_vectors(n) {
             for mask in 0..(1u32 << n) {
                 let info: Vec<bool> = (0..n).map(|k| mask & (1 << k) != 0).collect();
-                let runs = [Run { prog: forest_prog(&parents, &info), filter: true }];
+                let runs = [Run { prog: forest_prog(&parents, &info), filter: true, reentrant: false }];
                 emit(&mut sink, idx, "exhaustive-filter", &runs, o.seed);
                 idx += 1;
             }
@@ -928,10 +995,12 @@ pub fn run(o: &Opts) {
             let filter = r.chance(40);
             let max_ops = *r.pick(&[8usize, 20, 40, 70]);
             let prog = gen_prog(&mut r, max_ops, if filter { 35 } else { 10 });
-            let mut runs = vec![Run { prog, filter }];
+            // every fourth case: the layer is re-entered while it renders the attributes of a span
+            let reentrant = idx % 4 == 1;
+            let mut runs = vec![Run { prog, filter, reentrant }];
             if r.chance(50) {
                 let filter2 = r.chance(30);
-                runs.push(Run { prog: gen_prog(&mut r, 12, 20), filter: filter2 });
+                runs.push(Run { prog: gen_prog(&mut r, 12, 20), filter: filter2, reentrant: false });
             }
             emit(&mut sink, idx, if filter { "random-filter" } else { "random" }, &runs, o.seed);
         }
